@@ -17,9 +17,10 @@
 From Coq Require Import List PeanoNat NArith Bool Lia ZifyN ZifyNat ZifyBool Permutation.
 From Frugal Require Import Bytes Wire Skip Values Desc Spec Encode Decode Checks.
 From Frugal.gen Require Import Params.
-From Frugal.proofs Require Import BytesWire EncodeSpec SkipPut DecodeRefines RoundTrip.
+From Frugal.proofs Require Import BytesWire EncodeSpec SkipPut DecodeRefines RoundTrip ParamsSplit.
 From Frugal.proofs Require SizeExact.
 From Frugal.props Require Examples.
+From Frugal.proofs Require GenEncParams GenTables.
 Import ListNotations.
 Open Scope N_scope.
 
@@ -726,7 +727,7 @@ Qed.
 (* ------------------------------------------------------------------ *)
 
 Theorem encode_order_immaterial : forall env sid v v',
-  params_ok = true -> tables_ok = true -> env_ok env = true ->
+  enc_params_ok = true -> tables_ok = true -> env_ok env = true ->
   has_type env (TStruct sid) v = true ->
   vperm v v' ->
   exists w w', append_struct env sid v = put w /\ append_struct env sid v' = put w'
@@ -747,7 +748,7 @@ Qed.
 
 (* the same, spelled out: equal lengths, both parses well formed together *)
 Corollary encode_order_len : forall env sid v v',
-  params_ok = true -> tables_ok = true -> env_ok env = true ->
+  enc_params_ok = true -> tables_ok = true -> env_ok env = true ->
   has_type env (TStruct sid) v = true ->
   vperm v v' ->
   len (append_struct env sid v) = len (append_struct env sid v')
@@ -1085,7 +1086,7 @@ Qed.
 (* The general form: the value may violate [enums32] as long as the
    normalised keys of each map stay distinct. *)
 Theorem roundtrip_up_to_order_gen : forall env pool sid v v' rest,
-  params_ok = true -> tables_ok = true -> env_ok env = true -> init_ok env = true ->
+  dec_params_ok = true -> depth_odd_ok = true -> tables_ok = true -> env_ok env = true -> init_ok env = true ->
   has_type env (TStruct sid) v = true -> Spec.holders_empty v = true ->
   req_complete env (TStruct sid) v = true ->
   (2 * vdepth v + 1 <= S (N.to_nat maxDepthLimit))%nat ->
@@ -1097,20 +1098,19 @@ Theorem roundtrip_up_to_order_gen : forall env pool sid v v' rest,
     /\ r' = norm_top env sid v'
     /\ vperm (norm_top env sid v) r'.
 Proof.
-  intros env pool sid v v' rest HP HT HE HI Hty Hh Hr Hd Hkd Hvv.
+  intros env pool sid v v' rest HP HO HT HE HI Hty Hh Hr Hd Hkd Hvv.
   exists (norm_top env sid v'). split; [|split; [reflexivity|]].
   - apply roundtrip_gen; try assumption.
     + rewrite <- (vperm_has_type env v v' Hvv (TStruct sid)). exact Hty.
     + rewrite <- (vperm_holders_empty v v' Hvv). exact Hh.
     + rewrite <- (vperm_req_complete env v v' Hvv (TStruct sid)). exact Hr.
-    + rewrite <- (vperm_vdepth v v' Hvv).
-      assert (E : maxDepthLimit = 1023) by reflexivity. clear -Hd E. rewrite E in *. lia.
+    + rewrite <- (vperm_vdepth v v' Hvv). exact (odd_budget _ HO Hd).
   - unfold norm_top. exact (norm_perm env v v' (TStruct sid) (fresh env sid) Hvv Hkd).
 Qed.
 
 (* Under the hypotheses of [roundtrip] nothing more is needed. *)
 Theorem roundtrip_up_to_order : forall env pool sid v v' rest,
-  params_ok = true -> tables_ok = true -> env_ok env = true -> init_ok env = true ->
+  dec_params_ok = true -> depth_odd_ok = true -> tables_ok = true -> env_ok env = true -> init_ok env = true ->
   has_type env (TStruct sid) v = true -> Spec.holders_empty v = true ->
   enums32 env (TStruct sid) v = true -> req_complete env (TStruct sid) v = true ->
   (2 * vdepth v + 1 <= S (N.to_nat maxDepthLimit))%nat ->
@@ -1120,15 +1120,15 @@ Theorem roundtrip_up_to_order : forall env pool sid v v' rest,
     = DOk (r', len (append_struct env sid v')) rest
     /\ vperm (norm_top env sid v) r'.
 Proof.
-  intros env pool sid v v' rest HP HT HE HI Hty Hh He Hr Hd Hvv.
-  destruct (roundtrip_up_to_order_gen env pool sid v v' rest HP HT HE HI Hty Hh Hr Hd
+  intros env pool sid v v' rest HP HO HT HE HI Hty Hh He Hr Hd Hvv.
+  destruct (roundtrip_up_to_order_gen env pool sid v v' rest HP HO HT HE HI Hty Hh Hr Hd
               (typed_keys_distinct env v (TStruct sid) Hty He) Hvv) as (r' & H1 & _ & H2).
   exists r'. split; assumption.
 Qed.
 
 (* the reference decoder on the reference encoding, same statement *)
 Theorem absorb_denote_up_to_order : forall env sid v v',
-  params_ok = true -> env_ok env = true -> init_ok env = true ->
+  enc_params_ok = true -> env_ok env = true -> init_ok env = true ->
   has_type env (TStruct sid) v = true -> req_complete env (TStruct sid) v = true ->
   keys_distinct env (TStruct sid) v = true ->
   vperm v v' ->
@@ -1171,7 +1171,7 @@ Qed.
 
 (* the hypotheses hold, the two messages differ, and they have the same length *)
 Example ex_two_orders :
-  params_ok = true /\ tables_ok = true /\ env_ok env_ex = true /\ init_ok env_ex = true
+  enc_params_ok = true /\ tables_ok = true /\ env_ok env_ex = true /\ init_ok env_ex = true
   /\ has_type env_ex (TStruct 0) v_ex = true /\ Spec.holders_empty v_ex = true
   /\ enums32 env_ex (TStruct 0) v_ex = true /\ req_complete env_ex (TStruct 0) v_ex = true
   /\ (2 * vdepth v_ex + 1 <= S (N.to_nat maxDepthLimit))%nat
@@ -1182,15 +1182,17 @@ Example ex_two_orders :
   /\ len (append_struct env_ex 0 v_ex) = len (append_struct env_ex 0 v_ex_swapped)
   /\ encoded_size env_ex 0 v_ex = encoded_size env_ex 0 v_ex_swapped.
 Proof.
+  split; [exact GenEncParams.enc_params_ok_holds|]. split; [exact GenTables.tables_ok_holds|].
   repeat split; try (vm_compute; reflexivity); try exact ex_vperm.
   - vm_compute. repeat constructor.
   - intros H. vm_compute in H. discriminate H.
   - intros H. vm_compute in H. discriminate H.
 Qed.
 
-(* the theorems applied to it *)
-Lemma ex_params : params_ok = true /\ tables_ok = true.
-Proof. split; vm_compute; reflexivity. Qed.
+(* the theorems applied to it (the round trip: proofs/MapOrderEx.v, which
+   needs the decoder's side conditions) *)
+Lemma ex_params : enc_params_ok = true /\ tables_ok = true.
+Proof. exact (conj GenEncParams.enc_params_ok_holds GenTables.tables_ok_holds). Qed.
 
 Example ex_encode_order :
   exists w w', append_struct env_ex 0 v_ex = put w /\ append_struct env_ex 0 v_ex_swapped = put w'
@@ -1198,17 +1200,6 @@ Example ex_encode_order :
 Proof.
   exact (encode_order_immaterial env_ex 0 v_ex v_ex_swapped (proj1 ex_params) (proj2 ex_params)
            (proj1 ex_env) ex_typed ex_vperm).
-Qed.
-
-Example ex_roundtrip_order :
-  exists r',
-    decode_object env_ex [] 0 (append_struct env_ex 0 v_ex_swapped ++ [1; 2; 3]) (fresh env_ex 0)
-    = DOk (r', len (append_struct env_ex 0 v_ex_swapped)) [1; 2; 3]
-    /\ vperm (norm_top env_ex 0 v_ex) r'.
-Proof.
-  destruct ex_hyps as (Hh & He & Hr & Hd).
-  exact (roundtrip_up_to_order env_ex [] 0 v_ex v_ex_swapped [1; 2; 3] (proj1 ex_params) (proj2 ex_params)
-           (proj1 ex_env) (proj2 ex_env) ex_typed Hh He Hr Hd ex_vperm).
 Qed.
 
 (* ... and the decoded values do differ as lists: the result is not simply [norm_top v_ex] *)
